@@ -94,6 +94,10 @@ type Pipeline struct {
 type Op struct {
 	Kind  string  `json:"kind"`
 	Fault *WFault `json:"fault,omitempty"`
+	// Sub > 0 (C13): the operation is applied to statement (Sub-1) mod n of the
+	// root instead of to the root (printing, dumping, traversing or resolving a
+	// part of a tree must leave the whole tree unchanged too)
+	Sub int `json:"sub,omitempty"`
 }
 
 // WFault is a fault of the io.Writer handed to a printer or dumper.
